@@ -58,6 +58,7 @@ func cmdDefs(o opts) {
 		writeJSON(o.out+"."+nd.Name+".json", dialectIndices(nd.D, ix))
 	}
 	writeJSON(o.out+".allplus.json", dialectIndices(findDialect("allplus"), ix))
+	writeJSON(o.out+".inhouse.json", dialectIndices(inhouse.Dialect, ix))
 }
 
 func findDialect(name string) *dialect.Dialect {
